@@ -16,6 +16,7 @@ from lerax.space import Box, Dict, Discrete, MultiBinary, MultiDiscrete, Tuple
 from vlib.runner import Ctx
 
 F32 = np.float32
+TINY = float(np.finfo(F32).tiny)
 
 
 # ----------------------------------------------------------------------------- descriptors <-> spaces
@@ -112,9 +113,6 @@ def member(d, c) -> bool:
     if t != "tuple" or len(c["items"]) != len(d["items"]):
         return False
     return all(member(v, ci) for v, ci in zip(d["items"], c["items"]))
-
-
-TINY = float(np.finfo(F32).tiny)
 
 
 def _ulp_out(v, up):
@@ -231,7 +229,12 @@ def a_near_miss(draw, d):
     return c
 
 
-_bound = st.one_of(st.sampled_from([0.0, -0.0, 1.0, -1.0, 2.5]), st.floats(-100, 100, allow_nan=False).map(lambda x: float(F32(x))))
+def _no_subnormal(x):
+    x = float(F32(x))
+    return 0.0 if abs(x) < TINY else x  # XLA:CPU flushes subnormals to zero; bounds are kept normal
+
+
+_bound = st.one_of(st.sampled_from([0.0, -0.0, 1.0, -1.0, 2.5]), st.floats(-100, 100, allow_nan=False).map(_no_subnormal))
 
 
 @st.composite
@@ -248,7 +251,7 @@ def box_desc(draw):
             hi = lo
         else:
             base = lo if np.isfinite(lo) else draw(_bound)
-            hi = float(F32(base + draw(st.floats(0.01, 50, allow_nan=False))))
+            hi = _no_subnormal(base + draw(st.floats(0.01, 50, allow_nan=False)))
         lows.append(lo)
         highs.append(hi)
     return {"kind": "box", "low": np.asarray(lows, F32).reshape(shape).tolist(), "high": np.asarray(highs, F32).reshape(shape).tolist()}
